@@ -90,7 +90,7 @@ CLAIMED = {
          'rows and preserves every other cell and every field count, formatted numbers have the shape -?d+(.d{p})? with correct '
          'half-even rounding, and the default output name differs from the input name. The model is checked against csv.reader on '
          'all short strings over {a , "} plus random ones, against CPython formatting on exact doubles, and against the real '
-         'write_epw on synthetic and end-to-end files; the statement is also evaluated independently on every written file.',
+         'write_epw on synthetic and end-to-end files; the statement is also evaluated independently on every written file. Composition D instantiates the pipeline with the concrete readers (EpwHeader, Weather), the concrete physics step and the writer (no hypothesis on the physics left) and ties the real generate;simulate;write_epw to it byte for byte for 1-3 hours.',
          'Trusted: Lean kernel (core only), the percent-encoding of the line protocol, Python csv as oracle for the reader tie. '
          'Text encoding, CRLF translation, -0.0/NaN/Inf and file-system aliasing are outside the model (hashing observes the rural file).',
          'DESIGN.md section 4 C01'),
